@@ -710,6 +710,7 @@ func (vc *VC) execCall(fr *Frame, st *State, reach string, instr ssa.Instruction
 	pos := posOf(fr, instr)
 	// #arg0, #arg1, ... name the arguments of the call in its 'before' / 'after' ghost blocks
 	fr.pendingArgs = args
+	fr.lastRes = Val{}
 	// interface method call
 	if common.IsInvoke() {
 		recv := vc.operand(fr, common.Value)
@@ -742,6 +743,7 @@ func (vc *VC) execCall(fr *Frame, st *State, reach string, instr ssa.Instruction
 			}
 			res = vc.applySpec(fr, st, reach, ms.Spec, nil, names, nil, instr, resT, key, n)
 		}
+		fr.lastRes = res
 		vc.ghostPoint(fr, st, reach, "after", "call", n, common.Method.Name())
 		return res
 	}
@@ -806,6 +808,7 @@ func (vc *VC) execCall(fr *Frame, st *State, reach string, instr ssa.Instruction
 			vc.havocAllForCall(fr, st, args)
 			res = vc.freshResults(st, resT, "dyn")
 		}
+		fr.lastRes = res
 		vc.ghostPoint(fr, st, reach, "after", "dyncall", n, "")
 		return res
 	}
@@ -884,6 +887,7 @@ func (vc *VC) execCall(fr *Frame, st *State, reach string, instr ssa.Instruction
 			// excluded by package / name, see externRefFree)
 			vc.trusted["unmodelled external call "+key+" with reference-free arguments: unknown result, no effect on repository state (A-EXTPURE)"] = true
 			res = vc.freshResults(st, resT, callee.Name())
+			fr.lastRes = res
 			vc.ghostPoint(fr, st, reach, "after", what, n, key)
 			return res
 		} else {
@@ -894,6 +898,7 @@ func (vc *VC) execCall(fr *Frame, st *State, reach string, instr ssa.Instruction
 		vc.havocAllForCall(fr, st, args)
 		res = vc.freshResults(st, resT, callee.Name())
 	}
+	fr.lastRes = res
 	vc.ghostPoint(fr, st, reach, "after", what, n, key)
 	return res
 }
